@@ -138,7 +138,8 @@ claim("C01", "E2+E1",
 
 claim("C18", "E2+E5",
       "static analysis: the C01 hash-order taint analysis restricted to the name flow (name-id allocation, name table assembly, fvar/STAT references, fea-rs name handling); forward data-flow from the name-id minting calls to output-table fields compared with the fields the remap function writes (sibling agreement)",
-      "Static decision of TWO clauses of C18: (H) the name table and the name ids other tables refer to do not depend on anything but the source, i.e. "
+      "Static decision of THREE clauses of C18: (T5) the feature-code name-id allocator is advanced on every path of the function that hands an id out "
+      "(found: a group of empty names left it untouched and the next group got the same id; repaired); (H) the name table and the name ids other tables refer to do not depend on anything but the source, i.e. "
       "not on per-process hash iteration order; (T4) every output-table field that receives a name id minted by the feature compiler (featureNames, "
       "cvParameters, sizemenuname, STAT names) is adjusted when those ids are shifted past the ids the font already uses - a forgotten field refers to "
       "a record that is not there or to someone else's (found: the size feature's menu name pointed at the fvar axis name; repaired). Referential "
